@@ -38,6 +38,7 @@ type Prog struct {
 	ssaPkgs []*ssa.Package
 	full    bool
 	cg      *callGraph
+	byPkg   map[*packages.Package][]*FuncInfo
 }
 
 // FuncInfo ties a declared function to its syntax and package.
@@ -46,6 +47,7 @@ type FuncInfo struct {
 	Decl *ast.FuncDecl
 	Pkg  *packages.Package
 	File *ast.File
+	name string
 }
 
 // LoadOpts selects what is loaded.
@@ -197,7 +199,12 @@ func shortPkg(path string) string {
 }
 
 // Name is the stable, qualified name of a function: "pkg.(*T).M" or "pkg.F".
-func (f *FuncInfo) Name() string { return funcName(f.Obj) }
+func (f *FuncInfo) Name() string {
+	if f.name == "" {
+		f.name = funcName(f.Obj)
+	}
+	return f.name
+}
 
 func funcName(fn *types.Func) string {
 	if fn == nil {
@@ -372,10 +379,19 @@ func (p *Prog) importedPkg(path string) *types.Package {
 
 // enclosing function name for reporting (handles function literals: reports the declared function).
 func (p *Prog) enclosingFunc(pk *packages.Package, pos token.Pos) *FuncInfo {
-	for _, f := range p.funcsL {
-		if f.Pkg == pk && f.Decl.Pos() <= pos && pos < f.Decl.End() {
-			return f
+	if p.byPkg == nil {
+		p.byPkg = map[*packages.Package][]*FuncInfo{}
+		for _, f := range p.funcsL {
+			p.byPkg[f.Pkg] = append(p.byPkg[f.Pkg], f)
 		}
+		for _, l := range p.byPkg {
+			sort.Slice(l, func(i, j int) bool { return l[i].Decl.Pos() < l[j].Decl.Pos() })
+		}
+	}
+	l := p.byPkg[pk]
+	i := sort.Search(len(l), func(i int) bool { return l[i].Decl.End() > pos })
+	if i < len(l) && l[i].Decl.Pos() <= pos {
+		return l[i]
 	}
 	return nil
 }
